@@ -13,8 +13,15 @@ META = {
 }
 
 
-def sig_for(dirn, observer, t, bad):
+def sig_for(dirn, observer, t, bad, o=None):
+    err = (o or {}).get("err") or ""
+    if bad == ["outcome"]:
+        return {"obj": "cert", "dir": dirn, "observer": observer, "fields": "outcome", "pad": "", "signer": "", "parent": "",
+                "nc16": any(len(n["ip"]) == 16 and len(n["mask"]) == 4 for n in t["pIP"] + t["xIP"]),
+                "stage": err.split(":")[0] if (o or {}).get("outcome") == "error" and ":" in err else ""}
     return {"obj": "cert", "dir": dirn, "observer": observer, "fields": ",".join(bad),
+            "nc16": any(len(n["ip"]) == 16 and len(n["mask"]) == 4 for n in t["pIP"] + t["xIP"]),
+            "stage": err.split(":")[0] if (o or {}).get("outcome") == "error" and ":" in err else "",
             "pad": ic.pad(t["sigAlg"]), "signer": ic.family(t["signerKey"]), "parent": t["parent"]["kind"]}
 
 
@@ -90,7 +97,7 @@ def run(ctx):
     for (i, bad, sbad) in rej:
         t = recs[i]["t"]
         if bad:
-            vc.append({"sig": sig_for("val", "zcrypto", t, bad),
+            vc.append({"sig": sig_for("val", "zcrypto", t, bad, recs[i]["obs"]),
                        "what": "recorded CreateCertificate/ParseCertificate observation rejected by Expected in %s (err=%r)" % (bad, recs[i]["obs"].get("err")),
                        "case": {"t": t, "obs": recs[i]["obs"], "observer": "zcrypto"}})
         if sbad:
